@@ -140,6 +140,35 @@ Non-trivial = every case (distinct by file bytes).".into();
         if i == 0 { c.witness("F-C02-a", !ok, "raw CR / CRLF inside a literal string is kept instead of being read as LF"); }
         else if !ok { c.oracle_fail("raw-cr-in-literal", "raw CR / CRLF inside a literal string is kept instead of being read as LF", json!({"file": hex(&w.bytes)})); }
     }
+    // witness for F-C02-b: a cross-reference stream row of an UNDEFINED type (ISO 32000-1 Table 18: "any other value shall be
+    // interpreted as a reference to the null object") has the same three fields as every other row and must be skipped as
+    // a whole; lopdf reads only its type field, so every later row is misread (Lean: Grammar.unknownType_desync).
+    if let Some(_r) = c.case("xrefstm_unknown_type", 0) {
+        let mut f: Vec<u8> = b"%PDF-1.5\n".to_vec();
+        let o2 = f.len(); f.extend_from_slice(b"2 0 obj\n<< /Type /Catalog >>\nendobj\n");
+        let o3 = f.len(); f.extend_from_slice(b"3 0 obj\n(hello)\nendobj\n");
+        let o4 = f.len();
+        let row = |t: u8, a: usize, b: u8| vec![t, (a >> 8) as u8, a as u8, b];
+        let mut rows = vec![];
+        rows.extend(row(0, 0, 255)); rows.extend(row(3, 0, 0)); rows.extend(row(1, o2, 0)); rows.extend(row(1, o3, 0)); rows.extend(row(1, o4, 0));
+        f.extend_from_slice(format!("4 0 obj\n<< /Type /XRef /Size 5 /W [1 2 1] /Index [0 5] /Root 2 0 R /Length {} >>\nstream\n", rows.len()).as_bytes());
+        f.extend_from_slice(&rows);
+        f.extend_from_slice(b"\nendstream\nendobj\n");
+        f.extend_from_slice(format!("startxref\n{}\n%%EOF\n", o4).as_bytes());
+        c.corr(format!("load {}", hex_tok(&f)), load_reply(&f));
+        let ok = matches!(guard(|| Document::load_mem(&f)), Ok(Ok(d))
+            if matches!(d.get_object((3, 0)), Ok(Object::String(s, _)) if s == b"hello") && d.get_object((2, 0)).is_ok());
+        c.witness("F-C02-b", !ok, "objects listed after a cross-reference stream row of an undefined type are lost (the row's fields 2 and 3 are not skipped)");
+        // control: the same file with the undefined-type row replaced by a free row loads completely
+        let mut g = f.clone();
+        let pos = g.windows(rows.len()).position(|w| w == &rows[..]).unwrap();
+        g[pos + 4] = 0;
+        let ok2 = matches!(guard(|| Document::load_mem(&g)), Ok(Ok(d))
+            if matches!(d.get_object((3, 0)), Ok(Object::String(s, _)) if s == b"hello") && d.get_object((2, 0)).is_ok());
+        c.corr(format!("load {}", hex_tok(&g)), load_reply(&g));
+        if !ok2 { c.oracle_fail("xrefstm-witness-control", "control file of the F-C02-b witness does not load", json!({"file": hex(&g)})); }
+        c.count("witness.xrefstm_unknown_type");
+    }
     for (k, v) in counters { c.count_n(&format!("choice.{}", k), v); }
 }
 
